@@ -47,7 +47,7 @@ def run_case(case):
     acc = Acc()
     r = rng(case['seed'], 'C08', case['i'])
     method = r.choice(['nla', 'nla', 'chic'])
-    seg = r.choice([500, 1000, 2500, 20000])
+    seg = r.choice([100, 150, 500, 1000, 2500, 20000])    # tiles smaller than a fragment too
     # contig names that contain each other (chr1 / chr10, chr2 / chr21) as real references have
     contigs = [(nm, r.choice([4000, 9000, 21000])) for nm in ['chr1', 'chr10', 'chr2', 'chr21'][:r.randint(1, 4)]]
     max_frag = 300
